@@ -7,10 +7,10 @@ cd $WT || exit 2
 git apply -R MUTANT/patch.diff 2>/dev/null   # to clean state (ignore if not applied)
 if [ -n "$(git status --short | grep -v '^??')" ]; then echo "CONFIRM $WT: worktree not clean after reverting the patch"; git status --short | grep -v '^??'; exit 1; fi
 git apply --check MUTANT/patch.diff || { echo "CONFIRM $WT: patch does not apply"; exit 1; }
-make -j8 >/dev/null 2>&1 || { echo "CONFIRM $WT: original does not build"; exit 1; }
+touch src/*.cpp; make -j8 >/dev/null 2>&1 || { echo "CONFIRM $WT: original does not build"; exit 1; }
 ( sh MUTANT/build.sh >MUTANT/confirm_orig.log 2>&1 ); ORIG=$?
 git apply MUTANT/patch.diff
-make -j8 >/dev/null 2>&1 || { echo "CONFIRM $WT: mutant does not build"; exit 1; }
+touch src/*.cpp; make -j8 >/dev/null 2>&1 || { echo "CONFIRM $WT: mutant does not build"; exit 1; }
 TESTS=$(make test 2>&1 | tail -1)
 ( sh MUTANT/build.sh >MUTANT/confirm_mut.log 2>&1 ); MUT=$?
 echo "CONFIRM $WT: tests-with-change='$TESTS' demo-original-exit=$ORIG demo-with-change-exit=$MUT"
